@@ -35,6 +35,8 @@ type Case struct {
 	Inputs  map[string]json.RawMessage `json:"inputs"`
 	// Repeat > 1: the outcome depends on goroutine scheduling; run up to Repeat times and keep the first failing run.
 	Repeat int `json:"repeat,omitempty"`
+	// Candidate: the replay of a counterexample (never skipped)
+	Candidate bool `json:"candidate,omitempty"`
 }
 
 // Result is what a native run of one case produced.
@@ -51,6 +53,9 @@ type Result struct {
 	Known    []string          `json:"known"`
 	Runs     int               `json:"runs,omitempty"`
 	HookCalls int              `json:"hook_calls,omitempty"`
+	// Skipped: a validation sample that was not run because three earlier samples of the same harness had already
+	// hung (each hang costs the whole watchdog period)
+	Skipped bool `json:"skipped,omitempty"`
 }
 
 var hookCalls atomic.Int64
@@ -465,11 +470,11 @@ func runOnce(c Case) (res Result) {
 	}()
 	select {
 	case <-finished:
-	case <-time.After(20 * time.Second):
+	case <-time.After(10 * time.Second):
 		// the harness did not return: a deadlock (or a blocked-forever call) in the code under test
 		cur.mu.Lock()
 		r := cur.res
-		r.Panic = "vt: harness did not finish within 20s (deadlock?)"
+		r.Panic = "vt: harness did not finish within 10s (deadlock?)"
 		r.Leaked = runtime.NumGoroutine() - before
 		cur.mu.Unlock()
 		return r
@@ -512,8 +517,17 @@ func RunReplay(fatal func(args ...any)) {
 		return
 	}
 	var results []Result
+	hangs := map[string]int{}
 	for _, c := range cases {
-		results = append(results, RunCase(c))
+		if c.Repeat <= 1 && !c.Candidate && hangs[c.Harness] >= 3 {
+			results = append(results, Result{ID: c.ID, Harness: c.Harness, Skipped: true})
+			continue
+		}
+		r := RunCase(c)
+		if strings.HasPrefix(r.Panic, "vt: harness did not finish") {
+			hangs[c.Harness]++
+		}
+		results = append(results, r)
 	}
 	out, _ := json.MarshalIndent(results, "", " ")
 	if p := os.Getenv("VT_OUT"); p != "" {
